@@ -789,7 +789,7 @@ Section FunctionLawsNary.
   Fixpoint call_fval3 (o : obj) : nf3 o = true -> call env true o = ONum (fval3 o).
   Proof.
     intros Hn.
-    destruct o as [n|id|g a|g a b|g a args|?|?|? ?|? ? ?|? ? ?|?|? ?|? ? ?|? ? ?|? ?|? ?|?|? ?|? ?|?]; try discriminate.
+    destruct o as [n|id|g a|g a b|g a args|?|?|? ?|? ? ?|? ? ?|?|? ?|? ? ?|? ? ?|? ?|? ?|?|?|? ?|? ?|?]; try discriminate.
     - reflexivity.
     - reflexivity.
     - simpl in *. rewrite (call_fval3 a Hn). apply sel_apply1_num.
@@ -852,3 +852,112 @@ Section FunctionLawsNary.
       split; [|exact Hn]. rewrite callv_fval3 by exact Hn. reflexivity.
   Qed.
 End FunctionLawsNary.
+
+(* ====================================================================== *)
+(* ChannelList METHOD form of the n-ary operators: flop over the channels and every argument *)
+
+Lemma flop_rows_length : forall {A} (e d : A) cols,
+  length (flop_rows e d cols) = fold_right (fun c m => Nat.max (length c) m) 0 cols.
+Proof. intros. unfold flop_rows. rewrite map_length, seq_length. reflexivity. Qed.
+
+Lemma flop_rows_nth : forall {A} (e d : A) cols i,
+  i < fold_right (fun c m => Nat.max (length c) m) 0 cols ->
+  nth i (flop_rows e d cols) [] = map (fun c => match c with [] => e | _ => nth (i mod length c) c d end) cols.
+Proof.
+  intros A e d cols i Hi. unfold flop_rows.
+  set (f := fun i0 : nat => map (fun c : list A => match c with [] => e | _ :: _ => nth (i0 mod length c) c d end) cols).
+  rewrite (nth_indep _ [] (f 0)) by (rewrite map_length, seq_length; exact Hi).
+  rewrite map_nth. rewrite seq_nth by exact Hi. reflexivity.
+Qed.
+
+Lemma apply_narop_nums : forall g x ys, apply_narop g (ONum x) (map ONum ys) = ONum (snd g x ys).
+Proof. intros g x ys. unfold apply_narop. simpl. rewrite first_err_map, onums_of_map. reflexivity. Qed.
+
+Lemma col_nth_nums : forall (c : list num) i, c <> [] ->
+  match map ONum c with [] => OSeq KList [] | _ :: _ => nth (i mod length (map ONum c)) (map ONum c) (OErr EIndex) end
+  = ONum (nth (i mod length c) c NErr).
+Proof.
+  intros c i Hc. destruct c as [|y c']; [congruence|]. cbn [map].
+  change (ONum y :: map ONum c') with (map ONum (y :: c')).
+  rewrite map_length. rewrite (nth_indep _ (OErr EIndex) (ONum NErr)).
+  - apply (map_nth ONum).
+  - rewrite map_length. apply Nat.mod_upper_bound. discriminate.
+Qed.
+
+(* a.clip(lo, hi) / fold / wrap / blend on a ChannelList of numbers with arguments that are numbers or
+   lists of numbers: as many channels as the LONGEST of channels and arguments, channel i =
+   op a[i mod |a|] arg_1[i mod |arg_1|] ... *)
+Lemma chan_method_narop_wrap_law : forall (g : op3) xs args (cols : list (list num)),
+  xs <> [] -> Forall (fun c => c <> []) cols ->
+  first_err args = None -> map as_col args = map (map ONum) cols ->
+  let len := fold_right (fun c m => Nat.max (length c) m) 0 (xs :: cols) in
+  exists r, chan_method_narop g (OSeq KChan (map ONum xs)) args = OSeq KChan r
+    /\ length r = len
+    /\ forall i, i < len ->
+         nth i r (ONum NErr)
+         = ONum (snd g (nth (i mod length xs) xs NErr) (map (fun c => nth (i mod length c) c NErr) cols)).
+Proof.
+  intros g xs args cols Hxs Hcols He Hargs len.
+  unfold chan_method_narop. rewrite He, Hargs.
+  set (allc := map ONum xs :: map (map ONum) cols).
+  assert (Hlen : fold_right (fun c m => Nat.max (length c) m) 0 allc = len).
+  { unfold allc, len. simpl. rewrite map_length. f_equal.
+    clear. induction cols as [|c cols IH]; [reflexivity|]. simpl. rewrite map_length, IH. reflexivity. }
+  eexists. split; [reflexivity|]. split; [rewrite map_length, flop_rows_length; exact Hlen|].
+  intros i Hi.
+  set (F := fun row : list obj => match row with ONum x :: rest => apply_narop g (ONum x) rest | _ => OErr EType end).
+  rewrite (nth_indep _ (ONum NErr) (F [])) by (rewrite map_length, flop_rows_length, Hlen; exact Hi).
+  rewrite map_nth. rewrite flop_rows_nth by (rewrite Hlen; exact Hi).
+  unfold allc. simpl map.
+  rewrite (col_nth_nums xs i Hxs). unfold F.
+  assert (Hc : map (fun c : list obj => match c with [] => OSeq KList [] | _ :: _ => nth (i mod length c) c (OErr EIndex) end)
+                   (map (map ONum) cols)
+               = map ONum (map (fun c => nth (i mod length c) c NErr) cols)).
+  { clear - Hcols. induction Hcols as [|c cols Hc _ IH]; [reflexivity|]. simpl map. rewrite IH. f_equal.
+    apply col_nth_nums. exact Hc. }
+  rewrite Hc. apply apply_narop_nums.
+Qed.
+
+(* ====================================================================== *)
+(* next(inval): the k-th value uses the k-th input, in every operand, direct or embedded *)
+
+Lemma zip_map_same : forall {A B C} (f : A -> B) (h : A -> C) l, zip (map f l) (map h l) = map (fun k => (f k, h k)) l.
+Proof. intros A B C f h l; induction l as [|x l IH]; simpl; [reflexivity|]. rewrite IH; reflexivity. Qed.
+
+Section InvalLaws.
+  Variable ienv : nat -> nat -> num.
+  Variable hor : nat.
+  Notation ip := (ipull ienv hor).
+
+  (* next(op p, inval) = op (next(p, inval)) and next(p op q, inval) = next(p, inval) op next(q, inval),
+     for operands whose value depends on the input (Pfunc), starting at any offset *)
+  Lemma inval_unop : forall g id m off, m <> MPull ->
+    ip m off (OUnPat g (OPfunc id)) = SFin (map (fun k => ONum (snd g (ienv id (off + k)))) (seq 0 (hor - off))).
+  Proof.
+    intros g id [| |] off Hm; try congruence; simpl; rewrite map_map; f_equal; apply map_ext; intros k; apply sel_apply1_num.
+  Qed.
+  Lemma inval_binop : forall g i j m off, m <> MPull ->
+    ip m off (OBinPat g (OPfunc i) (OPfunc j))
+    = SFin (map (fun k => ONum (snd g (ienv i (off + k)) (ienv j (off + k)))) (seq 0 (hor - off))).
+  Proof.
+    intros g i j [| |] off Hm; try congruence; simpl; rewrite zip_map_same, map_map; f_equal; apply map_ext; intros k; apply sel_apply2_nums.
+  Qed.
+
+  (* embedded: an enclosing Pseq threads the inputs through; after `pad` values the operator pattern
+     starts with input number |pad| *)
+  Lemma inval_unop_embedded : forall g id pad m off, m <> MPull ->
+    ip m off (OPseq [OPat pad; OUnPat g (OPfunc id)] 1)
+    = SFin (map ONum pad ++ map (fun k => ONum (snd g (ienv id (off + length pad + k)))) (seq 0 (hor - (off + length pad)))).
+  Proof.
+    intros g id pad [| |] off Hm; try congruence; simpl; unfold sapp_at; simpl;
+      rewrite !map_length, !app_nil_r, map_map; do 2 f_equal; apply map_ext; intros k; apply sel_apply1_num.
+  Qed.
+  Lemma inval_narop_embedded : forall g i j lo m off, m <> MPull ->
+    ip m off (OPn (ONarPat g (OPfunc i) [OPfunc j; ONum lo]) 1)
+    = SFin (map (fun k => ONum (snd g (ienv i (off + k)) [ienv j (off + k); lo])) (seq 0 (hor - off))).
+  Proof.
+    intros g i j lo [| |] off Hm; try congruence; simpl; unfold sapp_at; simpl;
+      rewrite app_nil_r, map_map, zip_map_same, map_map; f_equal; apply map_ext; intros k;
+      exact (sel_apply3_nums g (ienv i (off + k)) [ienv j (off + k); lo]).
+  Qed.
+End InvalLaws.
